@@ -1027,10 +1027,42 @@ class Gen:
         self.s.script = script[1:]
         return script[0]
 
+    def gen_handover(self) -> Optional[dict]:
+        """Script: one comment-interleaving list releases all its standalone comments (after up to two more
+        were appended to it as separate tokens), a sibling list claims whatever it can reach, and back."""
+        rng = self.rng
+        ws = self.wrappers(True, {'raw_repeated_comments'})
+        if len(ws) < 2:
+            return None
+        ref, owner, m = rng.choice(ws)
+        same = [w for w in ws if w[1] is owner and w[2].name != m.name]
+        near = [w for w in ws if w[1] is not owner and w[1].token_store is owner.token_store]
+        pool = same if same and rng.random() < 0.7 else near
+        if not pool:
+            return None
+        ref2 = rng.choice(pool)[0]
+        indent = self.child_indent(owner, m)
+        script = []
+        for _ in range(rng.choice([0, 1, 2, 2])):
+            script.append({'op': 'seq', 'k': 'append', 't': ref, 'm': m.name,
+                           'items': [{'node': {'tok': 'BlockComment', 'v': docgen.block_comment_value(rng), 'indent': indent}}]})
+        script += [{'op': 'claim', 't': ref, 'how': 'unclaim_inter'},
+                   {'op': 'claim', 't': ref2, 'how': 'claim_inter'}]
+        if rng.random() < 0.6:
+            script += [{'op': 'claim', 't': ref2, 'how': 'unclaim_inter'},
+                       {'op': 'claim', 't': ref, 'how': 'claim_inter'}]
+        self.s.script = script[1:]
+        return script[0]
+
     def gen_C(self) -> Optional[dict]:
         rng = self.rng
-        if rng.random() < 0.12:
+        r0 = rng.random()
+        if r0 < 0.12:
             op = self.gen_pingpong()
+            if op is not None:
+                return op
+        elif r0 < 0.2:
+            op = self.gen_handover()
             if op is not None:
                 return op
         lu = getattr(self.s, 'last_unclaimed', None)
